@@ -91,3 +91,48 @@ func (g *gen) enumSpellings() []Case {
 	}
 	return out
 }
+
+// enumOverride: the program registers its own upper / lower / trim / title / len (via WithFuncs
+// and via NewVue().Funcs): pipe form, call form, nested, under operators, in every position.
+func (g *gen) enumOverride() []Case {
+	overrideOn = true
+	defer func() { overrideOn = false }()
+	var out []Case
+	shapes := []Expr{
+		call("upper", p("s")), call("lower", p("h")), call("trim", p("pad")), call("title", p("m.inner.s")), call("len", p("xs")), call("len", p("s")),
+		bin("+", call("upper", p("s")), ls("x", "d")), bin(">", call("len", p("xs")), li("2")), bin("==", call("lower", p("h")), ls("lo:hello", "s")),
+		call("upper", call("lower", p("h"))), call("greet", call("upper", p("s"))), call("isBig", call("len", p("xs"))), call("len", call("upper", p("s"))),
+		{K: "tern", A: []Expr{bin(">", call("len", p("ss")), li("100")), ls("Y", "s"), ls("N", "s")}}, bin("&&", bin("==", call("trim", p("s")), p("s")), p("t")),
+	}
+	chains := [][]Stage{{{F: "upper"}}, {{F: "lower"}}, {{F: "trim"}}, {{F: "len"}}, {{F: "upper"}, {F: "lower"}}, {{F: "upper"}, {F: "len"}}, {{F: "trim"}, {F: "upper"}, {F: "greet"}},
+		{{F: "upper"}, {F: "wrap", A: []Arg{{K: "str", V: "x", Q: "s"}, {K: "str", V: "y", Q: "d"}}}}, {{F: "greet"}, {F: "upper"}}, {{F: "lower"}, {F: "typ"}}}
+	for env := 0; env < nEnvs; env++ {
+		for k, deliver := range []string{"", "fragment", "assign"} {
+			for _, x := range shapes {
+				if _, err := eval(x, envOf(env)); err != nil {
+					continue
+				}
+				xc := x
+				if c, ok := g.finishExpr(Case{Fam: "expr", Env: env, E: &xc}); ok {
+					c.Override, c.Deliver = true, deliver
+					out = append(out, c)
+				}
+			}
+			for i, st := range chains {
+				init := []string{"s", "h", "pad", "m.name"}[(i+k)%4]
+				if v, cst, err := evalPipe(Case{Fam: "pipe", Env: env, Init: init, Stages: st}, envOf(env)); cst == convOK && err == nil {
+					c := pipeCase(env, init, st, v)
+					c.Override, c.Deliver = true, deliver
+					out = append(out, c)
+				}
+			}
+			out = append(out, func() Case {
+				e := p("m.inner.s")
+				c := Case{Fam: "pipe", Env: env, Init: "m.inner.s", Stages: []Stage{{F: "title"}}, Pos: pipePos, Override: true, Deliver: deliver}
+				_ = e
+				return c
+			}())
+		}
+	}
+	return out
+}
